@@ -29,7 +29,21 @@ type lpCtx struct {
 	loops  []string // emitted loop definitions (inner first)
 	nloop  int
 	bad    []string
-	result string // named result field
+	result string // named result field (single-result functions)
+	results []string // all named result fields, in order
+	retFlag bool     // the function returns from inside a loop: field ret_ is set, and tested after every loop
+	inLoop  int
+	fuelOn  string // the bytes-typed parameter whose length bounds every loop
+	callees map[string]lpCallee
+	ntmp    int
+}
+
+// lpCallee: a function translated earlier that this one may call.
+type lpCallee struct {
+	lean   string  // Lean name
+	params []ltype
+	rets   []ltype
+	option bool // loop-mode callee: Option-valued (a panic or exhausted fuel is none)
 }
 
 func (c *lpCtx) fail(what string, n ast.Node) string {
@@ -130,10 +144,13 @@ func (c *lpCtx) typeOf(e ast.Expr) ltype {
 	case *ast.CallExpr:
 		if id, ok := x.Fun.(*ast.Ident); ok {
 			switch id.Name {
-			case "len", "cap":
+			case "len", "cap", "int":
 				return tInt
 			case "append", "make":
 				return tBytes
+			}
+			if ce, ok := c.callees[id.Name]; ok && !ce.option && len(ce.rets) == 1 {
+				return ce.rets[0]
 			}
 		}
 		if se, ok := x.Fun.(*ast.SelectorExpr); ok {
@@ -247,6 +264,10 @@ func (c *lpCtx) expr(e ast.Expr, want ltype) string {
 			return "(" + l + " + " + r + ")"
 		case token.SUB:
 			return "(" + l + " - " + r + ")"
+		case token.MUL:
+			if t == tInt {
+				return "(" + l + " * " + r + ")"
+			}
 		}
 	case *ast.IndexExpr:
 		return "(goIndex " + c.expr(x.X, tBytes) + " " + c.expr(x.Index, tInt) + ")"
@@ -268,9 +289,27 @@ func (c *lpCtx) expr(e ast.Expr, want ltype) string {
 			switch id.Name {
 			case "len":
 				return "(goLen " + c.expr(x.Args[0], tBytes) + ")"
+			case "int":
+				// conversion to int: of a byte (zero-extended) or of an int (identity)
+				if len(x.Args) == 1 {
+					switch c.typeOf(x.Args[0]) {
+					case tByte:
+						return "(Int.ofNat " + c.expr(x.Args[0], tByte) + ".toNat)"
+					case tInt:
+						return c.expr(x.Args[0], tInt)
+					}
+				}
 			case "append":
 				if len(x.Args) == 2 && x.Ellipsis != token.NoPos {
 					return "(" + c.expr(x.Args[0], tBytes) + " ++ " + c.expr(x.Args[1], tBytes) + ")"
+				}
+			default:
+				if ce, ok := c.callees[id.Name]; ok && !ce.option && len(ce.rets) == 1 && len(ce.params) == len(x.Args) {
+					r := "(" + ce.lean
+					for i, a := range x.Args {
+						r += " " + c.expr(a, ce.params[i])
+					}
+					return r + ")"
 				}
 			case "make":
 				// make([]byte, 0, n): an empty slice (capacity is not observable here)
@@ -425,6 +464,64 @@ func (c *lpCtx) stmt(w *lw, s ast.Stmt) {
 				}
 				return
 			}
+			// a, b, c := f(...) for a function translated earlier (loop mode: Option-valued)
+			if len(x.Rhs) == 1 {
+				if call, ok := x.Rhs[0].(*ast.CallExpr); ok {
+					if id, ok := call.Fun.(*ast.Ident); ok {
+						if ce, ok := c.callees[id.Name]; ok && len(ce.rets) == len(x.Lhs) && len(ce.params) == len(call.Args) {
+							for _, a := range call.Args {
+								c.guard(w, a)
+							}
+							app := ce.lean
+							for i, a := range call.Args {
+								app += " " + c.expr(a, ce.params[i])
+							}
+							c.ntmp++
+							tmp := fmt.Sprintf("r_%d", c.ntmp)
+							if ce.option {
+								w.line("let %s ← %s", tmp, app)
+							} else {
+								w.line("let %s := %s", tmp, app)
+							}
+							var sets []string
+							for i, l := range x.Lhs {
+								lid, ok := l.(*ast.Ident)
+								if !ok {
+									w.line("%s", c.fail("assignment target "+exprText(c.fset, l), l))
+									return
+								}
+								var n string
+								if x.Tok == token.DEFINE {
+									n = c.declare(lid, ce.rets[i])
+								} else {
+									n, ok = c.field(lid)
+									if !ok {
+										w.line("%s", c.fail("assignment to undeclared "+lid.Name, l))
+										return
+									}
+								}
+								if n == "_" {
+									continue
+								}
+								proj := tmp
+								if len(ce.rets) > 1 {
+									proj = tmp + "." + strings.Repeat("2.", i)
+									if i < len(ce.rets)-1 {
+										proj += "1"
+									} else {
+										proj = strings.TrimSuffix(proj, ".")
+									}
+								}
+								sets = append(sets, fmt.Sprintf("%s := %s", n, proj))
+							}
+							if len(sets) > 0 {
+								w.line("v := { v with %s }", strings.Join(sets, ", "))
+							}
+							return
+						}
+					}
+				}
+			}
 			// r, s := utf8.DecodeLastRune(b)
 			if len(x.Lhs) == 2 && len(x.Rhs) == 1 {
 				if call, ok := x.Rhs[0].(*ast.CallExpr); ok {
@@ -511,7 +608,9 @@ func (c *lpCtx) stmt(w *lw, s ast.Stmt) {
 			lwr.line("if !%s then", c.expr(x.Cond, tBool))
 			lwr.line("  return v")
 		}
+		c.inLoop++
 		c.stmts(lwr, x.Body.List)
+		c.inLoop--
 		if x.Post != nil {
 			c.stmt(lwr, x.Post)
 		}
@@ -520,7 +619,11 @@ func (c *lpCtx) stmt(w *lw, s ast.Stmt) {
 		fmt.Fprintf(&sb, "def %s : Nat → %s.Vars → Option %s.Vars\n  | 0, _ => none\n  | fuel + 1, v_in => do\n", name, c.fn, c.fn)
 		sb.WriteString(lwr.sb.String())
 		c.loops = append(c.loops, sb.String())
-		w.line("v ← %s ((goLen v.b).toNat + 1) v", name)
+		w.line("v ← %s ((goLen v.%s).toNat + 1) v", name, c.fuelOn)
+		if c.retFlag {
+			w.line("if v.ret_ then")
+			w.line("  return v")
+		}
 	case *ast.BranchStmt:
 		if x.Tok == token.BREAK && x.Label == nil {
 			w.line("return v")
@@ -529,6 +632,26 @@ func (c *lpCtx) stmt(w *lw, s ast.Stmt) {
 		w.line("%s", c.fail("branch "+x.Tok.String(), x))
 	case *ast.ReturnStmt:
 		if len(x.Results) == 0 {
+			if c.retFlag && c.inLoop > 0 {
+				w.line("v := { v with ret_ := true }")
+			}
+			w.line("return v")
+			return
+		}
+		if len(x.Results) == len(c.results) {
+			// all operands are evaluated before any result is assigned
+			var sets []string
+			for i, r := range x.Results {
+				c.guard(w, r)
+				c.ntmp++
+				tmp := fmt.Sprintf("r_%d", c.ntmp)
+				w.line("let %s := %s", tmp, c.expr(r, c.types[c.results[i]]))
+				sets = append(sets, fmt.Sprintf("%s := %s", c.results[i], tmp))
+			}
+			if c.retFlag && c.inLoop > 0 {
+				sets = append(sets, "ret_ := true")
+			}
+			w.line("v := { v with %s }", strings.Join(sets, ", "))
 			w.line("return v")
 			return
 		}
@@ -542,9 +665,21 @@ func (c *lpCtx) stmt(w *lw, s ast.Stmt) {
 
 // translateLoopFunc renders a function with loops: a Vars structure, one definition per loop,
 // and the function itself (`Option` of its single named result).
-func translateLoopFunc(fset *token.FileSet, fd *ast.FuncDecl, leanDefName string, consts map[string]string, cints map[string]int64) (string, []string) {
+func translateLoopFunc(fset *token.FileSet, fd *ast.FuncDecl, leanDefName string, consts map[string]string, cints map[string]int64, callees map[string]lpCallee) (string, []string) {
 	c := &lpCtx{fset: fset, fn: leanDefName, names: map[*ast.Object]string{}, types: map[string]ltype{}, used: map[string]int{},
-		consts: consts, cints: cints}
+		consts: consts, cints: cints, callees: callees}
+	// does the function return from inside a loop?
+	ast.Inspect(fd.Body, func(n ast.Node) bool {
+		if f, ok := n.(*ast.ForStmt); ok {
+			ast.Inspect(f.Body, func(m ast.Node) bool {
+				if _, ok := m.(*ast.ReturnStmt); ok {
+					c.retFlag = true
+				}
+				return true
+			})
+		}
+		return true
+	})
 	var params, inits []string
 	for _, f := range fd.Type.Params.List {
 		t := goTypeOf(f.Type)
@@ -552,13 +687,30 @@ func translateLoopFunc(fset *token.FileSet, fd *ast.FuncDecl, leanDefName string
 			fn := c.declare(n, t)
 			params = append(params, fmt.Sprintf("(%s : %s)", fn, leanType(t)))
 			inits = append(inits, fmt.Sprintf("%s := %s", fn, fn))
+			if t == tBytes && c.fuelOn == "" {
+				c.fuelOn = fn
+			}
 		}
 	}
-	if fd.Type.Results == nil || len(fd.Type.Results.List) != 1 || len(fd.Type.Results.List[0].Names) != 1 {
-		return "", []string{"loop-mode function must have one named result"}
+	if fd.Type.Results == nil {
+		return "", []string{"loop-mode function must have named results"}
 	}
-	rt := goTypeOf(fd.Type.Results.List[0].Type)
-	c.result = c.declare(fd.Type.Results.List[0].Names[0], rt)
+	var rts []string
+	for _, f := range fd.Type.Results.List {
+		if len(f.Names) == 0 {
+			return "", []string{"loop-mode function must have named results"}
+		}
+		for _, n := range f.Names {
+			t := goTypeOf(f.Type)
+			c.results = append(c.results, c.declare(n, t))
+			rts = append(rts, leanType(t))
+		}
+	}
+	c.result = c.results[0]
+	if c.retFlag {
+		c.types["ret_"] = tBool
+		c.order = append(c.order, "ret_")
+	}
 	w := &lw{ind: 1}
 	w.line("let mut v : %s.Vars := { %s }", leanDefName, strings.Join(inits, ", "))
 	// body of the function; `return` = return the state (the result field is read at the end)
@@ -592,7 +744,15 @@ func translateLoopFunc(fset *token.FileSet, fd *ast.FuncDecl, leanDefName string
 		sb.WriteString("  return v\n")
 	}
 	sb.WriteString("\n")
-	fmt.Fprintf(&sb, "def %s %s : Option (%s) :=\n  (%s.run %s).map (·.%s)\n", leanDefName, strings.Join(params, " "), leanType(rt), leanDefName,
+	proj := "(·." + c.result + ")"
+	if len(c.results) > 1 {
+		var fs []string
+		for _, r := range c.results {
+			fs = append(fs, "v."+r)
+		}
+		proj = "(fun v => (" + strings.Join(fs, ", ") + "))"
+	}
+	fmt.Fprintf(&sb, "def %s %s : Option (%s) :=\n  (%s.run %s).map %s\n", leanDefName, strings.Join(params, " "), strings.Join(rts, " × "), leanDefName,
 		strings.Join(func() []string {
 			var a []string
 			for _, f := range fd.Type.Params.List {
@@ -601,6 +761,6 @@ func translateLoopFunc(fset *token.FileSet, fd *ast.FuncDecl, leanDefName string
 				}
 			}
 			return a
-		}(), " "), c.result)
+		}(), " "), proj)
 	return sb.String(), c.bad
 }
